@@ -1,6 +1,6 @@
 """C04 — PIN block encode then decode returns the PIN (ISO 9564 formats 0, 2, 3, 4)."""
 from core import Case
-from props.cardutil import digits, rb
+from props.cardutil import digits, rb, corpus
 
 OBLIGATIONS = ["Psec.Props.C04.iso0_roundtrip", "Psec.Props.C04.iso2_roundtrip", "Psec.Props.C04.iso3_roundtrip", "Psec.Props.C04.iso4_field_roundtrip", "Psec.Props.C04.iso4_encipher_roundtrip"]
 TRUSTED_BASE = ["Lean 4.33 kernel", "hypothesis Ciphers.Lawful for the format-4 encipherment", "CPython's SystemRandom.choice algorithm as modelled (rejection sampling of urandom(1)[0] >> 5)",
@@ -63,6 +63,28 @@ def related_pairs(rng, tier):
 
 
 def generate(rng, tier, seed):
+    # inputs found by search (harness/tools/build_aes_rare.py): AES keys whose check value is 000000, and values of the random half
+    # of the format-4 PIN field for which the intermediate block of the decipherment looks like a PIN field itself
+    for e in corpus("C04"):
+        if e["kind"] == "zero-check-value":
+            for _ in range(3):
+                c = Case("roundtrip:key-with-zero-check-value", {"key": len(e["key"]) // 2})
+                roundtrips(c, rng, digits(rng, rng.randrange(4, 13)), digits(rng, 16), digits(rng, rng.randrange(1, 20)), bytes.fromhex(e["key"]))
+                yield c
+        else:
+            c = Case("roundtrip:format4:intermediate-looks-like-a-pin-field", {"pin": e["pin"]})
+            key, fill = bytes.fromhex(e["key"]), bytes.fromhex(e["fill"])
+            f4 = c.call("pinblock.encode_pin_field_iso_4", e["pin"], with_entropy=True, entropy=fill)
+            e4 = c.call("pinblock.encipher_pinblock_iso_4", key, e["pin"], e["pan"], with_entropy=True, entropy=fill)
+            if not (f4.ok and e4.ok):
+                c.fail("encoder rejected an admissible PIN / PAN")
+            else:
+                if f4.value[8:] != fill:
+                    c.fail("the PIN field does not carry the random bytes the operating system returned")
+                d4 = c.call("pinblock.decipher_pinblock_iso_4", key, e4.value, e["pan"])
+                if not d4.ok or d4.value != e["pin"]:
+                    c.fail(f"format 4 enciphered: decode(encode(pin)) = {d4.value if d4.ok else d4.err} != {e['pin']} for the random fill {e['fill']}")
+            yield c
     draws = 2 if tier == "quick" else 6
     for plen in range(4, 13):
         for panlen in range(13, 25):
